@@ -120,6 +120,8 @@ def _alias(fn, muts, sig):
         return 'wavelet_center:border-huge:timeout'
     if short in MORPH_BC and any(n == 'Bc' and c.split(':')[-1] == 'zero-size' for n, c in muts):
         return 'morph:Bc-zero-size'
+    if short == 'majority_filter' and (nd or '0d' in base):
+        return 'majority_filter:ndim-not-2'
     if short == 'disk' and any(n == 'dim' for n, _ in muts) and sig == 'timeout':
         return 'disk:dim-huge:timeout'
     return None
